@@ -55,8 +55,16 @@ impl LinkProbe {
     pub fn new(discard: bool, datagram: bool, frag_size: usize) -> Self {
         let (a, b) = tokio::io::duplex(1 << 20);
         let modes = LinkModes {
-            error_mode: if discard { LinkErrorMode::Discard } else { LinkErrorMode::Close },
-            read_mode: if datagram { LinkReadMode::Datagram } else { LinkReadMode::Stream },
+            error_mode: if discard {
+                LinkErrorMode::Discard
+            } else {
+                LinkErrorMode::Close
+            },
+            read_mode: if datagram {
+                LinkReadMode::Datagram
+            } else {
+                LinkReadMode::Stream
+            },
         };
         Self {
             reader: Reader::new(modes, frag_size),
@@ -77,7 +85,12 @@ impl LinkProbe {
         }
         self.tx.write_all(chunk).await.unwrap();
         loop {
-            let res = poll_once(self.reader.read_frame(&mut self.io, &mut self.payload, DecodeLevel::nothing())).await;
+            let res = poll_once(self.reader.read_frame(
+                &mut self.io,
+                &mut self.payload,
+                DecodeLevel::nothing(),
+            ))
+            .await;
             match res {
                 None => break,
                 Some(Ok((header, _addr))) => {
@@ -112,8 +125,17 @@ pub fn hex(b: &[u8]) -> String {
 }
 
 /// `format_data_frame` / `format_header_only` with raw header values
-pub fn format_frame_raw(ctrl: u8, dst: u16, src: u16, payload: Option<(u8, &[u8])>) -> Option<Vec<u8>> {
-    let header = Header::new(ControlField::from(ctrl), AnyAddress::from(dst), AnyAddress::from(src));
+pub fn format_frame_raw(
+    ctrl: u8,
+    dst: u16,
+    src: u16,
+    payload: Option<(u8, &[u8])>,
+) -> Option<Vec<u8>> {
+    let header = Header::new(
+        ControlField::from(ctrl),
+        AnyAddress::from(dst),
+        AnyAddress::from(src),
+    );
     let mut buffer = [0u8; 400];
     let mut cursor = scursor::WriteCursor::new(&mut buffer);
     let res = match payload {
@@ -140,20 +162,43 @@ pub struct TransportProbe {
 }
 
 impl TransportProbe {
-    pub fn new(master: bool, self_address: bool, local: u16, rx: usize, discard: bool, datagram: bool) -> Self {
+    pub fn new(
+        master: bool,
+        self_address: bool,
+        local: u16,
+        rx: usize,
+        discard: bool,
+        datagram: bool,
+    ) -> Self {
         let (a, b) = tokio::io::duplex(1 << 20);
         let modes = LinkModes {
-            error_mode: if discard { LinkErrorMode::Discard } else { LinkErrorMode::Close },
-            read_mode: if datagram { LinkReadMode::Datagram } else { LinkReadMode::Stream },
+            error_mode: if discard {
+                LinkErrorMode::Discard
+            } else {
+                LinkErrorMode::Close
+            },
+            read_mode: if datagram {
+                LinkReadMode::Datagram
+            } else {
+                LinkReadMode::Stream
+            },
         };
         let addr = crate::link::EndpointAddress::raw(local);
         let reader = if master {
             crate::transport::real::reader::Reader::master(modes, addr, rx)
         } else {
-            let f = if self_address { crate::outstation::Feature::Enabled } else { crate::outstation::Feature::Disabled };
+            let f = if self_address {
+                crate::outstation::Feature::Enabled
+            } else {
+                crate::outstation::Feature::Disabled
+            };
             crate::transport::real::reader::Reader::outstation(modes, addr, f, rx)
         };
-        let et = if master { crate::app::EndpointType::Master } else { crate::app::EndpointType::Outstation };
+        let et = if master {
+            crate::app::EndpointType::Master
+        } else {
+            crate::app::EndpointType::Outstation
+        };
         Self {
             reader,
             writer: crate::transport::real::writer::Writer::new(et, addr),
@@ -209,7 +254,8 @@ impl TransportProbe {
                 }
                 Some(Ok(())) => {
                     if double_read {
-                        let _ = poll_once(self.reader.read(&mut self.io, DecodeLevel::nothing())).await;
+                        let _ =
+                            poll_once(self.reader.read(&mut self.io, DecodeLevel::nothing())).await;
                         let r = self.drain_peer().await;
                         Self::push_replies(&mut out, &r);
                     }
@@ -217,16 +263,30 @@ impl TransportProbe {
                         Some(crate::transport::TransportData::Fragment(f)) => {
                             let bc = match f.info.broadcast {
                                 None => "-".to_string(),
-                                Some(crate::link::header::BroadcastConfirmMode::Optional) => "0".to_string(),
-                                Some(crate::link::header::BroadcastConfirmMode::Mandatory) => "1".to_string(),
-                                Some(crate::link::header::BroadcastConfirmMode::NotRequired) => "2".to_string(),
+                                Some(crate::link::header::BroadcastConfirmMode::Optional) => {
+                                    "0".to_string()
+                                }
+                                Some(crate::link::header::BroadcastConfirmMode::Mandatory) => {
+                                    "1".to_string()
+                                }
+                                Some(crate::link::header::BroadcastConfirmMode::NotRequired) => {
+                                    "2".to_string()
+                                }
                             };
-                            out.push(format!("frag {} {} {} {}", f.info.id, f.info.addr.link.raw_value(), bc, hex(f.data)));
+                            out.push(format!(
+                                "frag {} {} {} {}",
+                                f.info.id,
+                                f.info.addr.link.raw_value(),
+                                bc,
+                                hex(f.data)
+                            ));
                         }
                         Some(crate::transport::TransportData::LinkLayerMessage(m)) => {
                             let k = match m.message {
                                 crate::transport::LinkLayerMessageType::LinkStatusRequest => "req",
-                                crate::transport::LinkLayerMessageType::LinkStatusResponse => "resp",
+                                crate::transport::LinkLayerMessageType::LinkStatusResponse => {
+                                    "resp"
+                                }
                             };
                             out.push(format!("linkmsg {} {}", m.source.raw_value(), k));
                         }
@@ -245,7 +305,10 @@ impl TransportProbe {
             link: crate::link::EndpointAddress::raw(dest),
             phys: crate::util::phys::PhysAddr::None,
         };
-        let res = self.writer.write(&mut self.io, DecodeLevel::nothing(), addr, fragment).await;
+        let res = self
+            .writer
+            .write(&mut self.io, DecodeLevel::nothing(), addr, fragment)
+            .await;
         let bytes = self.drain_peer().await;
         if let Err(e) = res {
             return Err(link_error_str(&e));
@@ -287,3 +350,7 @@ pub mod trace_sink;
 // C09: device attributes (group 0): attribute database, response writers, request builder, parser
 #[path = "attr_probe.rs"]
 pub mod attr_probe;
+
+// C09: file transfer objects (group 70): object writers, the master's file request builders, parser
+#[path = "file70_probe.rs"]
+pub mod file70_probe;
